@@ -333,7 +333,7 @@ impl World {
             }
         }
         let act = Actual { ok: act_ok, panic: panic.clone(), responses: act_resps, trace };
-        let pred = Pred { ok: pred_res.is_ok(), responses: pred_resps, trace: std::mem::take(&mut it.trace), whys: std::mem::take(&mut it.whys), failures: it.failures, caught: it.caught, sites: it.sites.clone() };
+        let pred = Pred { fail_before: std::mem::take(&mut it.fail_before), ok: pred_res.is_ok(), responses: pred_resps, trace: std::mem::take(&mut it.trace), whys: std::mem::take(&mut it.whys), failures: it.failures, caught: it.caught, sites: it.sites.clone() };
         let _ = helper_note;
 
         // ---- model-free: all-or-nothing
@@ -345,10 +345,8 @@ impl World {
         if !act.ok {
             if let Some(d) = diff_scans(&pre_scan, &post_scan) {
                 let bank = pre_scan.iter().filter(|(k, _)| k.starts_with(b"\x00\x04bank")).ne(post_scan.iter().filter(|(k, _)| k.starts_with(b"\x00\x04bank")));
-                let mut owners = vec!["C01"];
-                if bank {
-                    owners.push("C05");
-                }
+                let owners = vec!["C01"];
+                let _ = bank;
                 discs.push(Disc { owners, sig: "atomicity:failed-call-changed-state".into(), msg: format!("the call returned Err but chain storage changed: {}", d), model_free: true });
             }
         }
@@ -372,6 +370,14 @@ impl World {
         let trace_disc = compare_traces(&pred, &act, top_agree);
         let had_trace_disc = trace_disc.is_some();
         if let Some(d) = trace_disc {
+            // same calls, different observations, both runs Ok: if the final state is wrong too, the
+            // state discrepancy (rollback / persistence) is the likelier root cause and goes first
+            if d.sig != "trace:call-sequence" && pred.ok && act.ok {
+                let extra: BTreeSet<String> = it.st.contracts.keys().cloned().collect();
+                let real_obs = self.observe_real(&extra);
+                let model_obs = World::observe_model(&it.st);
+                discs.extend(compare_state(&model_obs, &real_obs, pred.failures, &it.ever_written));
+            }
             discs.push(d);
         }
         if !had_trace_disc && panic.is_none() {
